@@ -553,14 +553,14 @@ def openNist (f ch sr : Int) : OpenRes :=
   else if s = ULAW ∨ s = ALAW then res .ok .good e ch sr bw (bw * ch)
   else let i := pcmInit bw e s ch ; res i.err i e ch sr bw (bw * ch)
 
-/-- `voc_write_header` divides by the sample rate for 8-bit mono / stereo -/
+/-- `voc_write_header` divides by the sample rate for 8-bit mono / stereo — not when the rate is below 1 (repair of the
+    SIGFPE part of KF-C10-rate0; the old behaviour is `diedOld`) -/
 def openVoc (f ch sr : Int) : OpenRes :=
   let s := codec f
   let bw := bytewidthOf s
   let e := E_LITTLE
   if s = PCM_U8 ∧ (ch = 1 ∨ ch = 2) then
-    if sr = 0 then early .divZero f ch sr
-    else let i := pcmInit bw e s ch ; res i.err i e ch sr bw (bw * ch)
+    let i := pcmInit bw e s ch ; res i.err i e ch sr bw (bw * ch)
   else if ch < 1 ∨ ch > 2 then early .channelCount f ch sr
   else if ¬ (s = PCM_U8 ∨ s = PCM_16 ∨ s = ALAW ∨ s = ULAW) then early .unimplemented f ch sr
   else if s = ULAW ∨ s = ALAW then res .ok .good e ch sr bw (bw * ch)
@@ -608,20 +608,18 @@ def openXi (f _ch _sr : Int) : OpenRes :=
   if s = DPCM_8 ∨ s = DPCM_16 then let i := dpcmInit bw 1 ; res i.err i E_LITTLE 1 44100 bw bw
   else res .ok ⟨.ok, false⟩ E_LITTLE 1 44100 bw bw
 
-/-- `htk_write_header`: `sample_period = 10000000 / samplerate` -/
+/-- `htk_write_header`: `sample_period = samplerate > 0 ? 10000000 / samplerate : 0` -/
 def openHtk (f ch sr : Int) : OpenRes :=
   let s := codec f
   let bw := bytewidthOf s
-  if sr = 0 then early .divZero f ch sr
-  else if s = PCM_16 then let i := pcmInit bw E_BIG s ch ; res i.err i E_BIG ch sr bw (bw * ch)
+  if s = PCM_16 then let i := pcmInit bw E_BIG s ch ; res i.err i E_BIG ch sr bw (bw * ch)
   else res .ok ⟨.ok, false⟩ E_BIG ch sr bw (bw * ch)
 
-/-- `sds_write_header`: `1000000000 / samplerate` after the bit-width switch -/
+/-- `sds_write_header`: `samplerate > 0 ? 1000000000 / samplerate : 0` after the bit-width switch -/
 def openSds (f ch sr : Int) : OpenRes :=
   let s := codec f
   let bw := bytewidthOf s
   if ¬ (s = PCM_S8 ∨ s = PCM_16 ∨ s = PCM_24) then early .sdsBadBitWidth f ch sr
-  else if sr = 0 then early .divZero f ch sr
   else res .ok .good 0 ch sr bw 0
 
 def openAvr (f ch sr : Int) : OpenRes :=
@@ -717,8 +715,18 @@ def writeRet (f ch sr n : Int) : Int :=
     the > 8 channel overrun that used to lose the file name is refused at open since 0aa127c / e9742d9) -/
 def tmpLeft (_f _ch : Int) : Int := 0
 
-/-- IRCAM stores the rate as a float32 and reads it back into an `int`: 2^31 does not fit -/
-def ircamRateLost (f sr : Int) : Bool := container f = IRCAM ∧ sr ≥ 2147483584
+/-- before the repair of KF-C10-ircam-rate: IRCAM stores the rate as a float32 and reads it back into an `int`; rates
+    from 2^31 − 64 up rounded to 2^31, which does not fit -/
+def ircamRateLostOld (f sr : Int) : Bool := container f = IRCAM ∧ sr ≥ 2147483584
+
+/-- `ircam_write_header` caps the float at 2^31 − 128 now: no rate is lost (lean/SfModel/Ircam.lean `rateBits`) -/
+def ircamRateLost (_f _sr : Int) : Bool := false
+
+/-- before the repair of the SIGFPE part of KF-C10-rate0: the header writers of HTK, SDS (after its bit-width switch) and
+    VOC (8-bit PCM, one or two channels) divided by the sample rate inside sf_open — the process died at 0 Hz -/
+def diedOld (f ch sr : Int) : Bool :=
+  sr = 0 ∧ (container f = HTK ∨ (container f = SDS ∧ (codec f = PCM_S8 ∨ codec f = PCM_16 ∨ codec f = PCM_24))
+    ∨ (container f = VOC ∧ codec f = PCM_U8 ∧ (ch = 1 ∨ ch = 2)))
 
 /-- endianness bits of the format word the file re-opens with -/
 def reopenEndian (f : Int) (e : Int) : Int :=
@@ -737,6 +745,11 @@ def reopenEndian (f : Int) (e : Int) : Int :=
 /-- `SF_INFO.format` after re-opening the produced bytes for reading (`none`: they do not open) -/
 def reopen (f ch sr : Int) : Option Int :=
   if ircamRateLost f sr then none
+  else some (container f + codec f + reopenEndian f (containerOpen f ch sr).endian)
+
+/-- the same before the repair of KF-C10-ircam-rate -/
+def reopenOld (f ch sr : Int) : Option Int :=
+  if ircamRateLostOld f sr then none
   else some (container f + codec f + reopenEndian f (containerOpen f ch sr).endian)
 
 /-- same container and same encoding -/
